@@ -129,3 +129,87 @@ FindClosests stops one candidate too early: [ref0] instead of [ref0 ref1].`,
 		},
 	})
 }
+
+func init() {
+	register(&Rule{
+		ID: "A4", Props: []string{"C19", "C15"}, Min: 2,
+		Doc: `"4-mer tables count exactly the 4-mer occurrences": Encode4mer spells an ambiguity code as an a (a byte has no room for anything else), so whoever files or counts the words it returns must
+leave out the windows holding such a code. In pkg/obikmer every function that consumes the result of Encode4mer — or the packed word of its own loop, as Count4Mer does — refers to the table of the
+ambiguity codes (__is_ambiguous__), itself or through the package helper that hands it the words: Index4mer and FastShiftFourMer did not, cgtcnnnnnnnngatc was indexed with five occurrences of aaaa and
+one of caaa, two reads holding a run of n each were placed run against run (27 fake hits against the 17 real ones) and obipairing --fast-absolute assembled them there.`,
+		Run: func(c *Ctx, s *Sink) {
+			p := c.Pkg("pkg/obikmer")
+			if p == nil {
+				s.Undecided(nil, "pkg/obikmer", 0, "package not loaded")
+				return
+			}
+			info := p.TypesInfo
+			refsAmb := map[string]bool{}
+			callsEnc := map[string]*ast.FuncDecl{}
+			calls := map[string][]string{}
+			for _, f := range p.Syntax {
+				for _, d := range f.Decls {
+					fd, ok := d.(*ast.FuncDecl)
+					if !ok || fd.Body == nil {
+						continue
+					}
+					name := fd.Name.Name
+					ast.Inspect(fd.Body, func(n ast.Node) bool {
+						switch y := n.(type) {
+						case *ast.Ident:
+							if y.Name == "__is_ambiguous__" {
+								refsAmb[name] = true
+							}
+						case *ast.CallExpr:
+							if fn := callee(info, y); fn != nil && fn.Pkg() == p.Types {
+								calls[name] = append(calls[name], fn.Name())
+								if fn.Name() == "Encode4mer" {
+									callsEnc[name] = fd
+								}
+							}
+						}
+						return true
+					})
+				}
+			}
+			// consumers: the functions that reach Encode4mer
+			reaches := map[string]bool{}
+			changed := true
+			for k := range callsEnc {
+				reaches[k] = true
+			}
+			for changed {
+				changed = false
+				for f, cs := range calls {
+					if reaches[f] {
+						continue
+					}
+					for _, g := range cs {
+						if reaches[g] {
+							reaches[f] = true
+							changed = true
+						}
+					}
+				}
+			}
+			for f := range reaches {
+				fd, _ := c.FindFunc("pkg/obikmer", f)
+				if fd == nil {
+					continue
+				}
+				key := "pkg/obikmer." + f + ":ambiguous-windows-left-out"
+				ok := refsAmb[f]
+				for _, g := range calls[f] {
+					if refsAmb[g] && reaches[g] {
+						ok = true
+					}
+				}
+				if ok {
+					s.Pass(nil, key, fd.Pos(), "the words are taken under the test of the ambiguity codes (here or in the helper that hands them over)")
+				} else {
+					s.Fail(nil, key, fd.Pos(), "the words of Encode4mer are filed as they come: a window holding an ambiguity code counts as an occurrence of the word it spells with a in its place — cgtcnnnnnnnngatc is indexed with 5 occurrences of aaaa; two reads holding each a run of n are aligned run against run by FastShiftFourMer")
+				}
+			}
+		},
+	})
+}
